@@ -143,6 +143,7 @@ def natOps : Ops Nat where
   mergeMedia := fun a b => 10000 * a + b
   concat := List.sum
   isHash := fun _ => false
+  isSourceMap := fun _ => false
 
 /-- witness: `@media 1 { 2 { @media 3 { 4: 5 } } }` -/
 def mediaWitness : List (Core Nat) := [.media 1 [.rule 2 [.media 3 [.decl 4 5]]]]
